@@ -1457,6 +1457,19 @@ func lemmaForwardSession(raw *rawEnvelope) (e *Session, e3 *Session, accepted bo
 //@   ghost field lastSes *Session
 //@   ghost field nRecv int
 //@   ghost field lastRecv envelope
+//@   ghost field stage int
+//@   ghost field offerEnc []SessionEncryption
+//@   ghost field offerComp []SessionCompression
+//@   ghost field offerSchemes []AuthenticationScheme
+//@   ghost field confEnc SessionEncryption
+//@   ghost field confComp SessionCompression
+//@   ghost field supEnc set[SessionEncryption]
+//@   ghost field supComp set[SessionCompression]
+
+// Stage of a session envelope on the wire (C07): 1 negotiation options, 2 negotiation
+// confirmation, 3 authentication request / round trip, 4 established, 5 finished, 6 failed.
+//@ spec fn sesStage(s *Session) int = ite(s.State == SessionStateNegotiating, ite(s.EncryptionOptions != nil || s.CompressionOptions != nil, 1, 2), ite(s.State == SessionStateAuthenticating, 3, ite(s.State == SessionStateEstablished, 4, ite(s.State == SessionStateFinished, 5, ite(s.State == SessionStateFailed, 6, 0)))))
+//@ spec fn effStage(t Transport) int = ite(t.nSentSes == 0, 0, t.stage)
 
 //@ method Transport.Connected(t) (result)
 //@   pure
@@ -1464,15 +1477,25 @@ func lemmaForwardSession(raw *rawEnvelope) (e *Session, e3 *Session, accepted bo
 
 //@ method Transport.Send(t, ctx, e) (err)
 //@   requires e != nil && !payloadnil(e)
-//@   modifies t.nSent, t.lastSent, t.nSentSes, t.lastSes, t.connected
+//@   modifies t.nSent, t.lastSent, t.nSentSes, t.lastSes, t.connected, t.stage, t.offerEnc, t.offerComp, t.offerSchemes, t.confEnc, t.confComp
+//@   ensures err == nil && istype(e, *Session) ==> t.stage == sesStage(e.(*Session))
+//@   ensures err == nil && istype(e, *Session) && sesStage(e.(*Session)) == 1 ==> t.offerEnc == e.(*Session).EncryptionOptions && t.offerComp == e.(*Session).CompressionOptions
+//@   ensures !(err == nil && istype(e, *Session) && sesStage(e.(*Session)) == 1) ==> t.offerEnc == old(t.offerEnc) && t.offerComp == old(t.offerComp)
+//@   ensures err == nil && istype(e, *Session) && sesStage(e.(*Session)) == 2 ==> t.confEnc == e.(*Session).Encryption && t.confComp == e.(*Session).Compression
+//@   ensures !(err == nil && istype(e, *Session) && sesStage(e.(*Session)) == 2) ==> t.confEnc == old(t.confEnc) && t.confComp == old(t.confComp)
+//@   ensures err == nil && istype(e, *Session) && sesStage(e.(*Session)) == 3 && e.(*Session).SchemeOptions != nil ==> t.offerSchemes == e.(*Session).SchemeOptions
+//@   ensures !(err == nil && istype(e, *Session) && sesStage(e.(*Session)) == 3 && e.(*Session).SchemeOptions != nil) ==> t.offerSchemes == old(t.offerSchemes)
+//@   ensures !(err == nil && istype(e, *Session)) ==> t.stage == old(t.stage)
 //@   ensures err == nil ==> old(t.connected) && t.nSent == old(t.nSent) + 1 && t.lastSent == e
 //@   ensures err == nil && istype(e, *Session) ==> t.nSentSes == old(t.nSentSes) + 1 && t.lastSes == e.(*Session)
 //@   ensures err == nil && !istype(e, *Session) ==> t.nSentSes == old(t.nSentSes) && t.lastSes == old(t.lastSes)
 //@   ensures err != nil ==> t.nSent == old(t.nSent) && t.lastSent == old(t.lastSent) && t.nSentSes == old(t.nSentSes) && t.lastSes == old(t.lastSes)
 //@   ensures t.connected ==> old(t.connected)
 
+//@ ghost global recvClock int
 //@ method Transport.Receive(t, ctx) (env, err)
-//@   modifies t.nRecv, t.lastRecv, t.connected
+//@   modifies t.nRecv, t.lastRecv, t.connected, recvClock
+//@   ensures recvClock == old(recvClock) + 1
 //@   ensures err == nil ==> env != nil && !payloadnil(env) && t.lastRecv == env && t.nRecv == old(t.nRecv) + 1
 //@   ensures err != nil ==> t.lastRecv == old(t.lastRecv) && t.nRecv == old(t.nRecv)
 //@   ensures t.connected ==> old(t.connected)
@@ -1482,6 +1505,12 @@ func lemmaForwardSession(raw *rawEnvelope) (e *Session, e3 *Session, accepted bo
 //@   modifies t.connected
 //@   ensures !t.connected
 
+//@ method Transport.SupportedEncryption(t) (result)
+//@   modifies nothing
+//@   ensures fresh(result) && elems(result) == t.supEnc
+//@ method Transport.SupportedCompression(t) (result)
+//@   modifies nothing
+//@   ensures fresh(result) && elems(result) == t.supComp
 //@ method Transport.Encryption(t) (result)
 //@   pure
 //@   ensures result == t.enc
@@ -1550,7 +1579,15 @@ func lemmaForwardSession(raw *rawEnvelope) (e *Session, e3 *Session, accepted bo
 //@ func (*channel).sendSession
 //@   props C06 C07 C08
 //@   requires c != nil && ses != nil
-//@   modifies c.transport.nSent, c.transport.lastSent, c.transport.nSentSes, c.transport.lastSes, c.transport.connected
+//@   modifies c.transport.nSent, c.transport.lastSent, c.transport.nSentSes, c.transport.lastSes, c.transport.connected, c.transport.stage, c.transport.offerEnc, c.transport.offerComp, c.transport.offerSchemes, c.transport.confEnc, c.transport.confComp
+//@   ensures result == nil ==> c.transport.stage == sesStage(ses)
+//@   ensures result == nil && sesStage(ses) == 1 ==> c.transport.offerEnc == ses.EncryptionOptions && c.transport.offerComp == ses.CompressionOptions
+//@   ensures !(result == nil && sesStage(ses) == 1) ==> c.transport.offerEnc == old(c.transport.offerEnc) && c.transport.offerComp == old(c.transport.offerComp)
+//@   ensures result == nil && sesStage(ses) == 2 ==> c.transport.confEnc == ses.Encryption && c.transport.confComp == ses.Compression
+//@   ensures !(result == nil && sesStage(ses) == 2) ==> c.transport.confEnc == old(c.transport.confEnc) && c.transport.confComp == old(c.transport.confComp)
+//@   ensures result == nil && sesStage(ses) == 3 && ses.SchemeOptions != nil ==> c.transport.offerSchemes == ses.SchemeOptions
+//@   ensures !(result == nil && sesStage(ses) == 3 && ses.SchemeOptions != nil) ==> c.transport.offerSchemes == old(c.transport.offerSchemes)
+//@   ensures result != nil ==> c.transport.stage == old(c.transport.stage)
 //@   ensures result == nil ==> old(transportOK(c)) && old(c.state) != SessionStateFinished && old(c.state) != SessionStateFailed
 //@   ensures result == nil ==> c.transport.nSentSes == old(c.transport.nSentSes) + 1 && c.transport.lastSes == ses && c.transport.nSent == old(c.transport.nSent) + 1
 //@   ensures result != nil ==> c.transport.nSentSes == old(c.transport.nSentSes) && c.transport.lastSes == old(c.transport.lastSes) && c.transport.nSent == old(c.transport.nSent)
@@ -1560,14 +1597,14 @@ func lemmaForwardSession(raw *rawEnvelope) (e *Session, e3 *Session, accepted bo
 //@   props C06 C07 C08
 //@   requires c != nil
 //@   panics only-if ctx == nil
-//@   modifies c.transport.nRecv, c.transport.lastRecv, c.transport.connected
+//@   modifies c.transport.nRecv, c.transport.lastRecv, recvClock, c.transport.connected
 //@   ensures err == nil ==> result0 != nil
 //@   ensures err != nil ==> result0 == nil
 //@   ensures old(c.state) == SessionStateFinished ==> err != nil
 //@   ensures err == nil && old(c.state) != SessionStateEstablished ==> old(transportOK(c)) && c.transport.nRecv == old(c.transport.nRecv) + 1 && istype(c.transport.lastRecv, *Session) && c.transport.lastRecv.(*Session) == result0
 //@   ensures err != nil || old(c.state) == SessionStateEstablished ==> c.transport.nRecv == old(c.transport.nRecv) || (err != nil && !istype(c.transport.lastRecv, *Session))
 //@   ensures c.transport != nil && c.transport.connected ==> old(c.transport.connected)
-//@   ensures c.transport.nRecv >= old(c.transport.nRecv)
+//@   ensures c.transport.nRecv >= old(c.transport.nRecv) && recvClock >= old(recvClock)
 
 // Inbound streams carry non-nil envelopes (established by the receiver, which
 // forwards only what Transport.Receive returned: non-nil pointers).
@@ -1582,8 +1619,8 @@ func lemmaForwardSession(raw *rawEnvelope) (e *Session, e3 *Session, accepted bo
 // C08 - client handshake tolerates any server and reports establishment truthfully
 // ---------------------------------------------------------------------------
 
-//@ spec fn lastSes(c *channel) *Session = c.transport.lastRecv.(*Session)
-//@ spec fn synced(c *channel) bool = istype(c.transport.lastRecv, *Session) && lastSes(c) != nil && c.sessionID == lastSes(c).ID && c.state == lastSes(c).State
+//@ spec fn recvSes(c *channel) *Session = c.transport.lastRecv.(*Session)
+//@ spec fn synced(c *channel) bool = istype(c.transport.lastRecv, *Session) && recvSes(c) != nil && c.sessionID == recvSes(c).ID && c.state == recvSes(c).State
 //@ spec fn cliOK(c *ClientChannel) bool = c != nil && c.channel != nil && c.client && c.transport != nil && !payloadnil(c.transport)
 
 //@ interface Authentication
@@ -1602,8 +1639,8 @@ func lemmaForwardSession(raw *rawEnvelope) (e *Session, e3 *Session, accepted bo
 // authentication request.
 //@ func (*channel).sendSession
 //@   requires [C08] @first c.client && c.transport != nil && c.transport.nRecv == 0 ==> ses.ID == "" && ses.State == SessionStateNew && ses.Authentication == nil
-//@   requires [C08] @echo c.client && c.transport != nil && c.transport.nRecv > 0 && c.state != SessionStateEstablished ==> istype(c.transport.lastRecv, *Session) && ses.ID == lastSes(c).ID
-//@   requires [C08] @cred c.client && ses.Authentication != nil ==> c.transport != nil && istype(c.transport.lastRecv, *Session) && lastSes(c).State == SessionStateAuthenticating
+//@   requires [C08] @echo c.client && c.transport != nil && c.transport.nRecv > 0 && c.state != SessionStateEstablished ==> istype(c.transport.lastRecv, *Session) && ses.ID == recvSes(c).ID
+//@   requires [C08] @cred c.client && ses.Authentication != nil ==> c.transport != nil && istype(c.transport.lastRecv, *Session) && recvSes(c).State == SessionStateAuthenticating
 //@   requires [C08] @estid c.client && c.state == SessionStateEstablished ==> ses.ID == c.sessionID
 
 //@ func (*ClientChannel).receiveSessionFromServer
@@ -1614,13 +1651,13 @@ func lemmaForwardSession(raw *rawEnvelope) (e *Session, e3 *Session, accepted bo
 //@   ensures step(c.state) >= step(old(c.state))
 //@   requires cliOK(c)
 //@   panics only-if ctx == nil
-//@   modifies c.localNode, c.remoteNode, c.sessionID, c.state, c.startRcv.fired, c.stopRcv.fired, c.transport.nRecv, c.transport.lastRecv, c.transport.connected
+//@   modifies c.localNode, c.remoteNode, c.sessionID, c.state, c.startRcv.fired, c.stopRcv.fired, c.transport.nRecv, c.transport.lastRecv, recvClock, c.transport.connected
 //@   ensures err == nil ==> result0 != nil && c.sessionID == result0.ID && c.state == result0.State
 //@   ensures err != nil ==> result0 == nil
 //@   ensures err == nil && result0.State == SessionStateEstablished ==> c.localNode == result0.To && c.remoteNode == result0.From
 //@   ensures err == nil && result0.State != SessionStateEstablished ==> c.localNode == old(c.localNode) && c.remoteNode == old(c.remoteNode)
 //@   ensures err == nil && (result0.State == SessionStateFinished || result0.State == SessionStateFailed) ==> !c.transport.connected
-//@   ensures err == nil && old(c.state) != SessionStateEstablished ==> c.transport.nRecv == old(c.transport.nRecv) + 1 && istype(c.transport.lastRecv, *Session) && lastSes(c.channel) == result0
+//@   ensures err == nil && old(c.state) != SessionStateEstablished ==> c.transport.nRecv == old(c.transport.nRecv) + 1 && istype(c.transport.lastRecv, *Session) && recvSes(c.channel) == result0
 //@   ensures step(c.state) >= step(old(c.state))
 
 //@ func (*ClientChannel).startNewSession
@@ -1631,8 +1668,8 @@ func lemmaForwardSession(raw *rawEnvelope) (e *Session, e3 *Session, accepted bo
 //@   ensures step(c.state) >= step(old(c.state))
 //@   requires cliOK(c) && c.transport.nRecv == 0
 //@   panics only-if ctx == nil
-//@   modifies c.localNode, c.remoteNode, c.sessionID, c.state, c.startRcv.fired, c.stopRcv.fired, c.transport.nRecv, c.transport.lastRecv, c.transport.connected, c.transport.nSent, c.transport.lastSent, c.transport.nSentSes, c.transport.lastSes
-//@   ensures err == nil ==> result0 != nil && synced(c.channel) && lastSes(c.channel) == result0 && c.transport.nRecv == 1
+//@   modifies c.localNode, c.remoteNode, c.sessionID, c.state, c.startRcv.fired, c.stopRcv.fired, c.transport.nRecv, c.transport.lastRecv, recvClock, c.transport.connected, c.transport.nSent, c.transport.lastSent, c.transport.nSentSes, c.transport.lastSes, c.transport.stage, c.transport.offerEnc, c.transport.offerComp, c.transport.offerSchemes, c.transport.confEnc, c.transport.confComp
+//@   ensures err == nil ==> result0 != nil && synced(c.channel) && recvSes(c.channel) == result0 && c.transport.nRecv == 1
 //@   ensures err == nil && result0.State == SessionStateEstablished ==> c.localNode == result0.To && c.remoteNode == result0.From
 //@   ensures err == nil && (result0.State == SessionStateFinished || result0.State == SessionStateFailed) ==> !c.transport.connected
 
@@ -1644,8 +1681,8 @@ func lemmaForwardSession(raw *rawEnvelope) (e *Session, e3 *Session, accepted bo
 //@   ensures step(c.state) >= step(old(c.state))
 //@   requires cliOK(c) && c.transport.nRecv > 0 && synced(c.channel)
 //@   panics only-if ctx == nil
-//@   modifies c.localNode, c.remoteNode, c.sessionID, c.state, c.startRcv.fired, c.stopRcv.fired, c.transport.nRecv, c.transport.lastRecv, c.transport.connected, c.transport.nSent, c.transport.lastSent, c.transport.nSentSes, c.transport.lastSes
-//@   ensures err == nil ==> result0 != nil && synced(c.channel) && lastSes(c.channel) == result0 && c.transport.nRecv > 0
+//@   modifies c.localNode, c.remoteNode, c.sessionID, c.state, c.startRcv.fired, c.stopRcv.fired, c.transport.nRecv, c.transport.lastRecv, recvClock, c.transport.connected, c.transport.nSent, c.transport.lastSent, c.transport.nSentSes, c.transport.lastSes, c.transport.stage, c.transport.offerEnc, c.transport.offerComp, c.transport.offerSchemes, c.transport.confEnc, c.transport.confComp
+//@   ensures err == nil ==> result0 != nil && synced(c.channel) && recvSes(c.channel) == result0 && c.transport.nRecv > 0
 //@   ensures err == nil && result0.State == SessionStateEstablished ==> c.localNode == result0.To && c.remoteNode == result0.From
 //@   ensures err == nil && (result0.State == SessionStateFinished || result0.State == SessionStateFailed) ==> !c.transport.connected
 
@@ -1657,15 +1694,15 @@ func lemmaForwardSession(raw *rawEnvelope) (e *Session, e3 *Session, accepted bo
 //@   ensures step(c.state) >= step(old(c.state))
 //@   requires cliOK(c) && c.transport.nRecv > 0 && synced(c.channel) && auth != nil
 //@   panics only-if ctx == nil
-//@   modifies c.localNode, c.remoteNode, c.sessionID, c.state, c.startRcv.fired, c.stopRcv.fired, c.transport.nRecv, c.transport.lastRecv, c.transport.connected, c.transport.nSent, c.transport.lastSent, c.transport.nSentSes, c.transport.lastSes
-//@   ensures err == nil ==> result0 != nil && synced(c.channel) && lastSes(c.channel) == result0 && c.transport.nRecv > 0
+//@   modifies c.localNode, c.remoteNode, c.sessionID, c.state, c.startRcv.fired, c.stopRcv.fired, c.transport.nRecv, c.transport.lastRecv, recvClock, c.transport.connected, c.transport.nSent, c.transport.lastSent, c.transport.nSentSes, c.transport.lastSes, c.transport.stage, c.transport.offerEnc, c.transport.offerComp, c.transport.offerSchemes, c.transport.confEnc, c.transport.confComp
+//@   ensures err == nil ==> result0 != nil && synced(c.channel) && recvSes(c.channel) == result0 && c.transport.nRecv > 0
 //@   ensures err == nil && result0.State == SessionStateEstablished ==> c.localNode == result0.To && c.remoteNode == result0.From
 //@   ensures err == nil && (result0.State == SessionStateFinished || result0.State == SessionStateFailed) ==> !c.transport.connected
 
 //@ func (*ClientChannel).sendFinishingSession
 //@   props C08
 //@   requires cliOK(c) && c.transport.nRecv > 0
-//@   modifies c.transport.nSent, c.transport.lastSent, c.transport.nSentSes, c.transport.lastSes, c.transport.connected
+//@   modifies c.transport.nSent, c.transport.lastSent, c.transport.nSentSes, c.transport.lastSes, c.transport.connected, c.transport.stage, c.transport.offerEnc, c.transport.offerComp, c.transport.offerSchemes, c.transport.confEnc, c.transport.confComp
 
 //@ func (*ClientChannel).FinishSession
 //@   props C08
@@ -1674,7 +1711,7 @@ func lemmaForwardSession(raw *rawEnvelope) (e *Session, e3 *Session, accepted bo
 //@   ensures step(c.state) >= step(old(c.state))
 //@   requires cliOK(c) && c.transport.nRecv > 0
 //@   panics only-if ctx == nil
-//@   modifies c.localNode, c.remoteNode, c.sessionID, c.state, c.startRcv.fired, c.stopRcv.fired, c.transport.nRecv, c.transport.lastRecv, c.transport.connected, c.transport.nSent, c.transport.lastSent, c.transport.nSentSes, c.transport.lastSes
+//@   modifies c.localNode, c.remoteNode, c.sessionID, c.state, c.startRcv.fired, c.stopRcv.fired, c.transport.nRecv, c.transport.lastRecv, recvClock, c.transport.connected, c.transport.nSent, c.transport.lastSent, c.transport.nSentSes, c.transport.lastSes, c.transport.stage, c.transport.offerEnc, c.transport.offerComp, c.transport.offerSchemes, c.transport.confEnc, c.transport.confComp
 //@   ensures err == nil ==> result0 != nil && c.state == result0.State
 //@   ensures err == nil && (result0.State == SessionStateFinished || result0.State == SessionStateFailed) ==> !c.transport.connected
 
@@ -1692,15 +1729,15 @@ func lemmaForwardSession(raw *rawEnvelope) (e *Session, e3 *Session, accepted bo
 //@   props C08
 //@   requires cliOK(c) && c.transport.nRecv == 0
 //@   panics only-if ctx == nil || authenticator == nil || c.state != SessionStateNew || compSelector == nil || encryptSelector == nil
-//@   modifies c.localNode, c.remoteNode, c.sessionID, c.state, c.startRcv.fired, c.stopRcv.fired, c.transport.nRecv, c.transport.lastRecv, c.transport.connected, c.transport.nSent, c.transport.lastSent, c.transport.nSentSes, c.transport.lastSes, c.transport.enc, c.transport.comp
+//@   modifies c.localNode, c.remoteNode, c.sessionID, c.state, c.startRcv.fired, c.stopRcv.fired, c.transport.nRecv, c.transport.lastRecv, recvClock, c.transport.connected, c.transport.nSent, c.transport.lastSent, c.transport.nSentSes, c.transport.lastSes, c.transport.stage, c.transport.offerEnc, c.transport.offerComp, c.transport.offerSchemes, c.transport.confEnc, c.transport.confComp, c.transport.enc, c.transport.comp
 //@   loop 0 invariant ses != nil && c.sessionID == ses.ID && c.state == ses.State && c.transport.nRecv > 0 && cliOK(c)
-//@   loop 0 invariant step(c.state) < 3 ==> synced(c.channel) && lastSes(c.channel) == ses
+//@   loop 0 invariant step(c.state) < 3 ==> synced(c.channel) && recvSes(c.channel) == ses
 //@   loop 0 invariant c.startRcv.fired && !old(c.startRcv.fired) ==> step(c.state) >= 3
 //@   loop 0 invariant ses.State == SessionStateEstablished ==> c.startRcv.fired
 //@   loop 0 invariant ses.State == SessionStateEstablished ==> c.localNode == ses.To && c.remoteNode == ses.From
 //@   loop 0 invariant ses.State == SessionStateFinished || ses.State == SessionStateFailed ==> !c.transport.connected
 //@   ensures @truth err == nil ==> result0 != nil && c.sessionID == result0.ID && c.state == result0.State
-//@   ensures @lastword err == nil && step(c.state) < 3 ==> lastSes(c.channel) == result0
+//@   ensures @lastword err == nil && step(c.state) < 3 ==> recvSes(c.channel) == result0
 //@   ensures @nodes err == nil && result0.State == SessionStateEstablished ==> c.localNode == result0.To && c.remoteNode == result0.From
 //@   ensures @rcv err == nil && result0.State == SessionStateEstablished ==> c.startRcv.fired
 //@   ensures @close err == nil && (result0.State == SessionStateFinished || result0.State == SessionStateFailed) ==> !c.transport.connected
@@ -1729,5 +1766,249 @@ func lemmaForwardSession(raw *rawEnvelope) (e *Session, e3 *Session, accepted bo
 //@   props C08
 //@   requires c != nil && c.config != nil && ctx != nil
 //@   requires c.config.NewTransport != nil && c.config.Authenticator != nil && c.config.CompSelector != nil && c.config.EncryptSelector != nil
-//@   modifies nothing
+//@   modifies recvClock
 //@   ensures @truth err == nil ==> result0 != nil && result0.state == SessionStateEstablished && result0.startRcv.fired
+
+// ---------------------------------------------------------------------------
+// Server handshake: C03 C07 C09 C10 C14 (DESIGN.md §4.4)
+// ---------------------------------------------------------------------------
+// Call records of the application callbacks (ghost, updated only by the role
+// contracts): latest authentication and registration calls, and counters for
+// the established / finished callbacks.
+
+//@ ghost global authN int
+//@ ghost global authSeqRecv int
+//@ ghost global authIdentity Identity
+//@ ghost global authArg Authentication
+//@ ghost global authRes *AuthenticationResult
+//@ ghost global authErr error
+//@ ghost global authEnc SessionEncryption
+//@ ghost global regN int
+//@ ghost global regSeqAuth int
+//@ ghost global regCand Node
+//@ ghost global regChan *ServerChannel
+//@ ghost global regRes Node
+//@ ghost global regErr error
+//@ ghost global estN int
+//@ ghost global estID string
+//@ ghost global estChan *ServerChannel
+//@ ghost global finN int
+//@ ghost global finID string
+
+//@ spec fn srvOK(c *ServerChannel) bool = c != nil && c.channel != nil && !c.client && c.transport != nil && !payloadnil(c.transport) && c.sessionID != ""
+//@ spec fn maxStage(s SessionState) int = ite(s == SessionStateNew, 0, ite(s == SessionStateNegotiating, 2, ite(s == SessionStateAuthenticating, 3, ite(s == SessionStateEstablished, 4, ite(s == SessionStateFinished, 5, 6)))))
+//@ spec fn srvInv(c *ServerChannel) bool = srvOK(c) && authClock <= recvClock && regClock <= recvClock && c.transport.nSentSes >= 0 && c.transport.nRecv >= 0 && effStage(c.transport) <= maxStage(c.state) && validState(c.state) && c.state != SessionStateFinishing
+//@ spec fn order(prev int, s *Session) bool = sesStage(s) >= 1 && prev < 5 && (sesStage(s) > prev || (sesStage(s) == 3 && prev == 3 && s.Authentication != nil)) && (sesStage(s) == 2 ==> prev == 1)
+
+// Server-side obligations on every session envelope written (statement of C07).
+//@ func (*channel).sendSession
+//@   requires [C07] @order !c.client && transportOK(c) && c.state != SessionStateFinished && c.state != SessionStateFailed ==> order(effStage(c.transport), ses)
+//@   requires [C07] @idfrom !c.client ==> ses.ID == c.sessionID && ses.From == c.localNode
+
+//@ func (*Identity).IsComplete
+//@   props C07
+//@   requires i != nil
+//@   ensures result == (i.Name != "" && i.Domain != "")
+//@   modifies nothing
+//@ func (*Node).IsComplete
+//@   props C07
+//@   requires n != nil
+//@   ensures result == (n.Name != "" && n.Domain != "" && n.Instance != "")
+//@   modifies nothing
+
+//@ func NewServerChannel
+//@   props C07 C17
+//@   panics only-if t == nil || payloadnil(t) || sessionID == "" || serverNode.Name == "" || serverNode.Domain == "" || serverNode.Instance == ""
+//@   modifies nothing
+//@   ensures result != nil && fresh(result) && result.channel != nil && fresh(result.channel) && result.transport == t && result.state == SessionStateNew && !result.client
+//@   ensures result.sessionID == sessionID && result.localNode == serverNode && result.remoteNode == Node{}
+//@   ensures !result.startRcv.fired && !result.stopRcv.fired
+
+//@ func (*ServerChannel).receiveNewSession
+//@   props C03 C07 C14
+//@   requires srvOK(c)
+//@   panics only-if ctx == nil
+//@   modifies c.transport.nRecv, c.transport.lastRecv, recvClock, c.transport.connected
+//@   ensures err == nil ==> result0 != nil && old(c.state) == SessionStateNew && old(transportOK(c.channel)) && c.transport.nRecv == old(c.transport.nRecv) + 1 && istype(c.transport.lastRecv, *Session) && recvSes(c.channel) == result0
+//@   ensures err != nil ==> result0 == nil
+//@   ensures c.transport.nRecv >= old(c.transport.nRecv) && recvClock >= old(recvClock)
+//@   ensures c.transport.connected ==> old(c.transport.connected)
+
+//@ spec fn sendGhosts(c *ServerChannel) bool = true
+
+//@ func (*ServerChannel).FailSession
+//@   props C03 C07 C14
+//@   requires srvInv(c)
+//@   modifies c.state, c.startRcv.fired, c.stopRcv.fired, c.transport.nSent, c.transport.lastSent, c.transport.nSentSes, c.transport.lastSes, c.transport.connected, c.transport.stage, c.transport.offerEnc, c.transport.offerComp, c.transport.offerSchemes, c.transport.confEnc, c.transport.confComp
+//@   ensures @failed result == nil ==> c.state == SessionStateFailed && c.transport.stage == 6 && c.transport.nSentSes == old(c.transport.nSentSes) + 1 && c.transport.lastSes.Reason == reason && c.transport.lastSes.State == SessionStateFailed && !c.transport.connected
+//@   ensures @noprogress result != nil ==> !old(transportOK(c.channel)) || c.state == SessionStateFailed
+//@   ensures srvInv(c) && step(c.state) >= step(old(c.state))
+//@   ensures c.startRcv.fired == old(c.startRcv.fired)
+//@   ensures c.state == old(c.state) || c.state == SessionStateFailed
+//@   ensures c.transport.connected ==> old(c.transport.connected)
+//@   ensures c.transport.nSentSes == old(c.transport.nSentSes) || (c.transport.nSentSes == old(c.transport.nSentSes) + 1 && c.transport.stage == 6)
+
+//@ func (*ServerChannel).FinishSession
+//@   props C07 C14
+//@   requires srvInv(c)
+//@   modifies c.state, c.startRcv.fired, c.stopRcv.fired, c.transport.nSent, c.transport.lastSent, c.transport.nSentSes, c.transport.lastSes, c.transport.connected, c.transport.stage, c.transport.offerEnc, c.transport.offerComp, c.transport.offerSchemes, c.transport.confEnc, c.transport.confComp
+//@   ensures result == nil ==> c.state == SessionStateFinished && c.transport.stage == 5 && !c.transport.connected
+//@   ensures srvInv(c) && step(c.state) >= step(old(c.state))
+//@   ensures c.transport.connected ==> old(c.transport.connected)
+
+//@ struct channel
+//@   ghost field cfgEnc set[SessionEncryption]
+//@   ghost field cfgComp set[SessionCompression]
+
+//@ ghost global authClock int
+//@ ghost global regClock int
+
+// intersect / contains are reflection code the verifier cannot enter: trusted
+// contracts (validated by the bounded differential test of the thorough tier).
+//@ spec fn rec boxedEnc(s []interface{}, k int) bool = k >= len(s) || (istype(s[k], SessionEncryption) && boxedEnc(s, k+1))
+//@ spec fn rec boxedComp(s []interface{}, k int) bool = k >= len(s) || (istype(s[k], SessionCompression) && boxedComp(s, k+1))
+
+//@ func intersect[[]SessionEncryption]
+//@   trusted reflection-based set intersection (order of the first argument preserved)
+//@   modifies nothing
+//@   ensures fresh(result) && boxedEnc(result, 0)
+//@   ensures subset(elems(result), elems(a.([]SessionEncryption))) && subset(elems(result), elems(b.([]SessionEncryption)))
+//@   ensures (len(result) == 0) == emptyinter(elems(a.([]SessionEncryption)), elems(b.([]SessionEncryption)))
+
+//@ func intersect[[]SessionCompression]
+//@   trusted reflection-based set intersection (order of the first argument preserved)
+//@   modifies nothing
+//@   ensures fresh(result) && boxedComp(result, 0)
+//@   ensures subset(elems(result), elems(a.([]SessionCompression))) && subset(elems(result), elems(b.([]SessionCompression)))
+//@   ensures (len(result) == 0) == emptyinter(elems(a.([]SessionCompression)), elems(b.([]SessionCompression)))
+
+// C10: the encryption in force is a configured one whenever some configured option is available.
+//@ spec fn policy(c *ServerChannel) bool = !emptyinter(c.cfgEnc, c.transport.supEnc) ==> inset(c.cfgEnc, c.transport.enc)
+
+// C03: evidence that the peer's latest envelope was authenticated and registered.
+//@ spec fn authEvidence(c *ServerChannel, node Node) bool = authClock == recvClock && authErr == nil && authRes != nil && authRes.Role != "" && authRes.Role != DomainRoleUnknown && istype(c.transport.lastRecv, *Session) && recvSes(c.channel).State == SessionStateAuthenticating && recvSes(c.channel).ID == c.sessionID && inset(elems(c.transport.offerSchemes), recvSes(c.channel).Scheme) && authIdentity == recvSes(c.channel).From.Identity && authArg == recvSes(c.channel).Authentication && regClock == recvClock && regSeqAuth == authN && regErr == nil && regCand == recvSes(c.channel).From && regChan == c && regRes == node
+
+//@ callback role authenticate(ctx, identity, a) (result, err) : param authenticate of (*ServerChannel).EstablishSession, param authenticate of (*ServerChannel).authenticateSession, field ServerConfig.Authenticate
+//@   modifies authN, authClock, authIdentity, authArg, authRes, authErr
+//@   ensures authN == old(authN) + 1 && authClock == recvClock && authIdentity == identity && authArg == a && authRes == result && authErr == err
+//@   ensures err == nil ==> result != nil
+//@   note the authentication callback returns a non-nil result when it returns no error and does not touch the channel
+
+//@ callback role register(ctx, candidate, ch) (node, err) : param register of (*ServerChannel).EstablishSession, param register of (*ServerChannel).authenticateSession, field ServerConfig.Register
+//@   modifies regN, regClock, regSeqAuth, regCand, regChan, regRes, regErr
+//@   ensures regN == old(regN) + 1 && regClock == recvClock && regSeqAuth == authN && regCand == candidate && regChan == ch && regRes == node && regErr == err
+//@   note the registration callback does not touch the channel
+
+//@ spec fn firstWordOK(c *ServerChannel) bool = c.transport.nRecv > 0 && istype(c.transport.lastRecv, *Session) && recvSes(c.channel) != nil && recvSes(c.channel).State == SessionStateNew && recvSes(c.channel).ID == ""
+
+//@ func (*ServerChannel).sendNegotiatingOptionsSession
+//@   props C07 C09
+//@   requires srvInv(c)
+//@   requires [C07] @clientword c.state == SessionStateNew && effStage(c.transport) == 0 && firstWordOK(c)
+//@   panics only-if ctx == nil
+//@   modifies c.state, c.startRcv.fired, c.stopRcv.fired, c.transport.nRecv, c.transport.lastRecv, recvClock, c.transport.connected, c.transport.nSent, c.transport.lastSent, c.transport.nSentSes, c.transport.lastSes, c.transport.stage, c.transport.offerEnc, c.transport.offerComp, c.transport.offerSchemes, c.transport.confEnc, c.transport.confComp
+//@   ensures err == nil ==> result0 != nil && istype(c.transport.lastRecv, *Session) && recvSes(c.channel) == result0 && c.state == SessionStateNegotiating && c.transport.nSentSes > 0 && c.transport.stage == 1
+//@   ensures err == nil ==> c.transport.offerEnc == encryptOptions && c.transport.offerComp == compOptions && len(compOptions) > 0 && len(encryptOptions) > 0
+//@   ensures srvInv(c) && step(c.state) >= step(old(c.state)) && c.startRcv.fired == old(c.startRcv.fired)
+//@   ensures c.state == SessionStateNew || c.state == SessionStateNegotiating
+//@   ensures c.transport.connected ==> old(c.transport.connected)
+
+//@ func (*ServerChannel).sendNegotiatingConfirmationSession
+//@   props C07 C09
+//@   requires srvInv(c)
+//@   requires [C07] @clientword c.state == SessionStateNegotiating ==> c.transport.nSentSes > 0 && c.transport.stage == 1 && istype(c.transport.lastRecv, *Session) && recvSes(c.channel).State == SessionStateNegotiating && recvSes(c.channel).ID == c.sessionID
+//@   requires [C09] @offered c.state == SessionStateNegotiating ==> inset(elems(c.transport.offerEnc), encrypt) && inset(elems(c.transport.offerComp), comp) && recvSes(c.channel).Encryption == encrypt && recvSes(c.channel).Compression == comp
+//@   modifies c.transport.connected, c.transport.nSent, c.transport.lastSent, c.transport.nSentSes, c.transport.lastSes, c.transport.stage, c.transport.offerEnc, c.transport.offerComp, c.transport.offerSchemes, c.transport.confEnc, c.transport.confComp
+//@   ensures result == nil ==> old(c.state) == SessionStateNegotiating && c.transport.stage == 2 && c.transport.nSentSes > 0 && c.transport.confEnc == encrypt && c.transport.confComp == comp
+//@   ensures result != nil ==> c.transport.stage == old(c.transport.stage) && c.transport.nSentSes == old(c.transport.nSentSes)
+//@   ensures c.transport.offerEnc == old(c.transport.offerEnc) && c.transport.offerComp == old(c.transport.offerComp)
+//@   ensures srvInv(c)
+//@   ensures c.transport.connected ==> old(c.transport.connected)
+
+//@ func (*ServerChannel).negotiateSession
+//@   props C07 C09 C10
+//@   requires srvInv(c)
+//@   requires [C07] @clientword c.state == SessionStateNew && effStage(c.transport) == 0 && firstWordOK(c)
+//@   panics only-if ctx == nil
+//@   modifies c.state, c.startRcv.fired, c.stopRcv.fired, c.transport.nRecv, c.transport.lastRecv, recvClock, c.transport.connected, c.transport.nSent, c.transport.lastSent, c.transport.nSentSes, c.transport.lastSes, c.transport.stage, c.transport.offerEnc, c.transport.offerComp, c.transport.offerSchemes, c.transport.confEnc, c.transport.confComp, c.transport.enc, c.transport.comp
+//@   loop 0 invariant 0 <= it_ && it_ <= len(compOpts) && compOptsMap != nil && subset(domof(compOptsMap), elems(compOpts))
+//@   loop 1 invariant 0 <= it_ && it_ <= len(encryptOpts) && encryptOptsMap != nil && subset(domof(encryptOptsMap), elems(encryptOpts)) && compOptsMap != nil && subset(domof(compOptsMap), elems(compOpts))
+//@   ensures [C09] @applied result == nil && c.state == SessionStateNegotiating ==> c.transport.stage == 2 && c.transport.nSentSes > 0 && c.transport.enc == c.transport.confEnc && c.transport.comp == c.transport.confComp && inset(elems(encryptOpts), c.transport.confEnc) && inset(elems(compOpts), c.transport.confComp)
+//@   ensures [C07] @failclosed result == nil && c.state != SessionStateNegotiating ==> c.state == SessionStateFailed && !c.transport.connected
+//@   ensures [C09] @offerexact result == nil && c.state == SessionStateNegotiating ==> c.transport.offerEnc == encryptOpts && c.transport.offerComp == compOpts
+//@   ensures srvInv(c) && step(c.state) >= step(old(c.state)) && c.startRcv.fired == old(c.startRcv.fired)
+//@   ensures c.state == SessionStateNew || c.state == SessionStateNegotiating || c.state == SessionStateFailed
+//@   ensures c.transport.connected ==> old(c.transport.connected)
+
+//@ spec fn authWordOK(c *ServerChannel) bool = (c.state == SessionStateNew ==> effStage(c.transport) == 0 && firstWordOK(c)) && (c.state == SessionStateNegotiating ==> c.transport.nSentSes > 0 && c.transport.stage == 2)
+//@ spec fn switched(c *ServerChannel) bool = c.state == SessionStateNegotiating ==> c.transport.enc == c.transport.confEnc && c.transport.comp == c.transport.confComp
+
+//@ func (*ServerChannel).sendAuthenticatingSession
+//@   props C03 C07 C09 C10
+//@   requires srvInv(c)
+//@   requires [C07] @clientword (c.state == SessionStateNew || c.state == SessionStateNegotiating) ==> authWordOK(c)
+//@   requires [C09] @switched switched(c)
+//@   requires [C10] @policy policy(c)
+//@   panics only-if ctx == nil
+//@   modifies c.state, c.startRcv.fired, c.stopRcv.fired, c.transport.nRecv, c.transport.lastRecv, recvClock, c.transport.connected, c.transport.nSent, c.transport.lastSent, c.transport.nSentSes, c.transport.lastSes, c.transport.stage, c.transport.offerEnc, c.transport.offerComp, c.transport.offerSchemes, c.transport.confEnc, c.transport.confComp
+//@   ensures err == nil ==> result0 != nil && istype(c.transport.lastRecv, *Session) && recvSes(c.channel) == result0 && c.state == SessionStateAuthenticating && c.transport.nSentSes > 0 && c.transport.stage == 3 && c.transport.offerSchemes == schemeOpts && c.transport.nRecv > 0
+//@   ensures srvInv(c) && step(c.state) >= step(old(c.state)) && c.startRcv.fired == old(c.startRcv.fired)
+//@   ensures c.state == old(c.state) || c.state == SessionStateAuthenticating
+//@   ensures c.transport.connected ==> old(c.transport.connected)
+
+//@ func (*ServerChannel).sendAuthenticatingRoundTripSession
+//@   props C03 C07 C10
+//@   requires srvInv(c)
+//@   requires [C07] @clientword c.state == SessionStateAuthenticating ==> c.transport.nSentSes > 0 && c.transport.stage == 3 && istype(c.transport.lastRecv, *Session) && recvSes(c.channel).State == SessionStateAuthenticating && recvSes(c.channel).ID == c.sessionID
+//@   requires [C10] @policy policy(c)
+//@   panics only-if ctx == nil || roundTrip == nil
+//@   modifies c.transport.nRecv, c.transport.lastRecv, recvClock, c.transport.connected, c.transport.nSent, c.transport.lastSent, c.transport.nSentSes, c.transport.lastSes, c.transport.stage, c.transport.offerEnc, c.transport.offerComp, c.transport.offerSchemes, c.transport.confEnc, c.transport.confComp
+//@   ensures err == nil ==> result0 != nil && istype(c.transport.lastRecv, *Session) && recvSes(c.channel) == result0 && c.state == SessionStateAuthenticating && c.transport.nSentSes > 0 && c.transport.stage == 3 && c.transport.nRecv > 0
+//@   ensures c.transport.offerSchemes == old(c.transport.offerSchemes)
+//@   ensures srvInv(c)
+//@   ensures c.transport.connected ==> old(c.transport.connected)
+
+//@ func (*ServerChannel).sendEstablishedSession
+//@   props C03 C07 C10
+//@   requires srvInv(c)
+//@   requires [C03] @evidence authEvidence(c, node)
+//@   requires [C07] @clientword c.state == SessionStateAuthenticating && c.transport.nSentSes > 0 && c.transport.stage == 3
+//@   requires [C10] @policy policy(c)
+//@   modifies c.state, c.remoteNode, c.startRcv.fired, c.stopRcv.fired, c.transport.connected, c.transport.nSent, c.transport.lastSent, c.transport.nSentSes, c.transport.lastSes, c.transport.stage, c.transport.offerEnc, c.transport.offerComp, c.transport.offerSchemes, c.transport.confEnc, c.transport.confComp
+//@   ensures [C03] @announce result == nil ==> c.state == SessionStateEstablished && c.remoteNode == node && c.transport.stage == 4 && c.transport.lastSes.To == node && c.transport.lastSes.ID == c.sessionID && c.transport.lastSes.From == c.localNode
+//@   ensures c.state == SessionStateEstablished || c.state == old(c.state)
+//@   ensures srvInv(c) && step(c.state) >= step(old(c.state))
+//@   ensures c.transport.connected ==> old(c.transport.connected)
+
+//@ func (*ServerChannel).authenticateSession
+//@   props C03 C07 C09 C10 C14
+//@   requires srvInv(c) && authenticate != nil && register != nil
+//@   requires [C07] @clientword (c.state == SessionStateNew || c.state == SessionStateNegotiating) ==> authWordOK(c)
+//@   requires [C09] @switched switched(c)
+//@   requires [C10] @policy policy(c)
+//@   panics only-if ctx == nil
+//@   modifies c.state, c.remoteNode, c.startRcv.fired, c.stopRcv.fired, c.transport.nRecv, c.transport.lastRecv, recvClock, c.transport.connected, c.transport.nSent, c.transport.lastSent, c.transport.nSentSes, c.transport.lastSes, c.transport.stage, c.transport.offerEnc, c.transport.offerComp, c.transport.offerSchemes, c.transport.confEnc, c.transport.confComp, authN, authClock, authIdentity, authArg, authRes, authErr, regN, regClock, regSeqAuth, regCand, regChan, regRes, regErr
+//@   loop 0 invariant 0 <= it_ && it_ <= len(schemeOpts) && schemeOptsMap != nil && subset(domof(schemeOptsMap), elems(schemeOpts))
+//@   loop 1 invariant srvInv(c) && ses != nil && err == nil && schemeOptsMap != nil && subset(domof(schemeOptsMap), elems(schemeOpts)) && policy(c)
+//@   loop 1 invariant c.state == SessionStateAuthenticating ==> istype(c.transport.lastRecv, *Session) && recvSes(c.channel) == ses && c.transport.nSentSes > 0 && c.transport.stage == 3 && c.transport.offerSchemes == schemeOpts
+//@   loop 1 invariant c.state == SessionStateAuthenticating || c.state == SessionStateEstablished || c.state == SessionStateFailed
+//@   loop 1 invariant c.state == SessionStateFailed ==> !c.transport.connected
+//@   loop 1 invariant c.transport.connected ==> old(c.transport.connected)
+//@   loop 1 invariant c.state == SessionStateEstablished ==> c.transport.stage == 4
+//@   oncall [C10] role:authenticate : policy(c)
+//@   ensures [C07] @failclosed result == nil && c.state != SessionStateEstablished ==> c.state == SessionStateFailed && !c.transport.connected
+//@   ensures srvInv(c) && step(c.state) >= step(old(c.state))
+//@   ensures c.transport.connected ==> old(c.transport.connected)
+
+//@ func (*ServerChannel).EstablishSession
+//@   props C03 C07 C09 C10 C14
+//@   requires srvInv(c) && c.state == SessionStateNew && effStage(c.transport) == 0
+//@   entry-ghost c.cfgEnc = elems(encryptOpts)
+//@   entry-ghost c.cfgComp = elems(compOpts)
+//@   panics only-if ctx == nil || compOpts == nil || encryptOpts == nil || authenticate == nil || register == nil
+//@   modifies c.cfgEnc, c.cfgComp, c.state, c.remoteNode, c.startRcv.fired, c.stopRcv.fired, c.transport.nRecv, c.transport.lastRecv, recvClock, c.transport.connected, c.transport.nSent, c.transport.lastSent, c.transport.nSentSes, c.transport.lastSes, c.transport.stage, c.transport.offerEnc, c.transport.offerComp, c.transport.offerSchemes, c.transport.confEnc, c.transport.confComp, c.transport.enc, c.transport.comp, authN, authClock, authIdentity, authArg, authRes, authErr, regN, regClock, regSeqAuth, regCand, regChan, regRes, regErr
+//@   loop 0 invariant 0 <= it_ && it_ <= len(rng_) && atloop(boxedComp(rng_, it_)) && len(negCompOpts) == it_ && subset(elems(negCompOpts), elems(rng_))
+//@   loop 1 invariant 0 <= it_ && it_ <= len(rng_) && atloop(boxedEnc(rng_, it_)) && len(negEncryptOpts) == it_ && subset(elems(negEncryptOpts), elems(rng_))
+//@   ensures [C14] @closedorestablished result == nil && c.state != SessionStateEstablished ==> !c.transport.connected
+//@   ensures [C07] @failclosed result == nil && c.state != SessionStateEstablished && old(transportOK(c.channel)) ==> c.state == SessionStateFailed || !c.transport.connected
+//@   ensures srvInv(c) && step(c.state) >= step(old(c.state))
